@@ -15,7 +15,9 @@ PIPE = {"a": ["G:A", "R:A:pf", "R:A:an"], "b": ["G:B", "R:B:df", "R:B:bn"], "c":
         # a non-empty reference-path context (shared child, nested layout) in both threads
         "j": ["G:E", "R:E:bN"], "k": ["G:E", "R:E:dN", "R:E:pf"],
         # string converters on, one generator kind per pipeline (attrs / plain / dataclasses)
-        "l": ["G:A", "R:A:ac"], "m": ["G:A", "R:A:bc"], "n": ["G:A", "R:A:df"]}
+        "l": ["G:A", "R:A:ac"], "m": ["G:A", "R:A:bc"], "n": ["G:A", "R:A:df"],
+        # date / time detection on (dateutil), with and without strings it can only guess about
+        "o": ["G:T", "R:T:df"], "p": ["G:T2", "R:T2:df"]}
 
 
 def solo(name):
@@ -62,7 +64,7 @@ def run(chk, build):
     # entries of generate / merge_models) while the other pipeline runs to its end, then resumes.  Deterministic, replayable.
     sjobs = []
     pairs = [("g", "h"), ("h", "g"), ("g", "i"), ("i", "h"), ("e", "f"), ("a", "c"), ("b", "d"), ("j", "k"),
-             ("a", "b"), ("b", "a"), ("a", "j"), ("e", "b"), ("l", "n"), ("n", "l"), ("m", "l"), ("m", "n")] if tier == "quick" else [p for i, p in enumerate(itertools.permutations(PIPE, 2)) if i % 3 == 0]
+             ("a", "b"), ("b", "a"), ("a", "j"), ("e", "b"), ("l", "n"), ("n", "l"), ("m", "l"), ("m", "n"), ("o", "p"), ("p", "o")] if tier == "quick" else [p for i, p in enumerate(itertools.permutations(PIPE, 2)) if i % 3 == 0]
     for pa, pb in pairs:
         for j in range(1, 25 if tier == "quick" else 41):
             sjobs.append(((pa, pb), [[0, j], [1, 10 ** 6]]))
